@@ -342,6 +342,10 @@ func (w *Writer) WriteCSM(csm io.ColumnSeriesMap, isVariableLength bool) error {
 			}
 		}
 
+		// rows are serialized in the column order of the series: bring it to the bucket's order
+		if err = cs.Project(io.GetNamesFromDSV(dbDSV)); err != nil {
+			return fmt.Errorf("order columns of %s like the bucket columns: %w", tbk, err)
+		}
 		rs, err := cs.ToRowSeries(tbk, alignData)
 		if err != nil {
 			return fmt.Errorf("convert column series to row series. tbk=%s: %w", tbk, err)
